@@ -728,6 +728,7 @@ func TestDriver(t *testing.T) {
 	}()
 	salt = vh.Seed()*1_000_003 + 17
 	prop := vh.Env("VERIF_PROP", "C01")
+	mode := vh.Env("VERIF_MODE", "conform")
 	path := os.Getenv("VERIF_CASES")
 	if path == "" {
 		t.Fatal("VERIF_CASES not set")
@@ -758,6 +759,10 @@ func TestDriver(t *testing.T) {
 					rep.Inconclusivef("cannot parse case: %v: %.200s", err, line)
 					continue
 				}
+				if mode == "regress" {
+					runRegress(rep, prop, &tc, &st)
+					continue
+				}
 				runCase(rep, prop, &tc, &st, kindCount)
 				if tc.Hon && honestKept.Load() < 4000 {
 					honestKept.Add(1)
@@ -781,6 +786,16 @@ func TestDriver(t *testing.T) {
 		t.Fatal(err)
 	}
 
+	if mode == "regress" {
+		rep.Count("regress_cases", st.cases.Load())
+		rep.Count("regress_refused", st.rejected.Load())
+		rep.Count("regress_accepted_wrong", st.acceptedForged.Load())
+		rep.Set("mode", mode)
+		if st.cases.Load() == 0 {
+			rep.Inconclusivef("no pre-fix counterexample was replayed")
+		}
+		return
+	}
 	// sampled complement: byte / field level mutations of honest encodings
 	mutations := mutationPass(rep, prop, &honestPool)
 
@@ -803,6 +818,61 @@ func TestDriver(t *testing.T) {
 	rep.Set("mutations", mutations)
 	if st.cases.Load() == 0 {
 		rep.Inconclusivef("no case was replayed")
+	}
+}
+
+// unsoundSignature names the class of an accepted wrong response structurally.
+func unsoundSignature(prop string, tc *tcase, steps string) string {
+	if tc.Req.K == "range" {
+		if rows, err := rangeRows(tc.Resp); err == nil && tc.W > 0 && tc.Req.To > tc.Req.From {
+			fr, fc := tc.Req.From/tc.W, tc.Req.From%tc.W
+			tr, tcol := (tc.Req.To-1)/tc.W, (tc.Req.To-1)%tc.W
+			if len(rows) == tr-fr+1 {
+				for k, row := range rows {
+					a, b := 0, tc.W
+					if k == 0 {
+						a = fc
+					}
+					if k == len(rows)-1 {
+						b = tcol + 1
+					}
+					if len(row) != b-a {
+						return prop + "/range/accepted-resliced-rows"
+					}
+				}
+			}
+		}
+	}
+	return fmt.Sprintf("%s/%s/unsound:%s", prop, tc.Req.K, steps)
+}
+
+// runRegress replays counterexamples of the PRE-FIX model: the real code must refuse them (or at
+// least not expose wrong shares).
+func runRegress(rep *vh.Report, prop string, tc *tcase, st *stats) {
+	w, err := getWorld(tc)
+	if err != nil {
+		rep.Inconclusivef("cannot build square for case: %v", err)
+		return
+	}
+	encs, err := w.encode(tc.Req.K, tc.Resp)
+	if err != nil {
+		rep.Inconclusivef("cannot materialise pre-fix counterexample: %v", err)
+		return
+	}
+	st.cases.Add(1)
+	want := committed(w.sq[1], tc.Req)
+	sig := stepSignature(tc.Steps)
+	for _, enc := range encs {
+		v := realVerify(tc.Req, w.sq[1].Roots, enc)
+		if v.accepted && !sameShares(v.data, want) {
+			st.acceptedForged.Add(1)
+			rep.Violate(unsoundSignature(prop, tc, sig),
+				fmt.Sprintf("counterexample of the pre-fix range model reproduced on the real code: %s verifier accepted %d shares that differ from the committed shares of %+v (codec %s, w=%d, forgery %s)",
+					tc.Req.K, len(v.data), tc.Req, enc.codec, tc.W, sig),
+				map[string]any{"case": tc, "codec": enc.codec, "seed": vh.Seed()})
+		} else {
+			st.rejected.Add(1)
+		}
 	}
 }
 
@@ -846,7 +916,7 @@ func runCase(rep *vh.Report, prop string, tc *tcase, st *stats, kindCount map[st
 		replay := map[string]any{"case": tc, "codec": enc.codec, "real_error": v.err, "seed": vh.Seed()}
 		// (i) the property: accepted => exactly the committed shares
 		if v.accepted && !sameShares(v.data, want) {
-			rep.Violate(fmt.Sprintf("%s/%s/unsound:%s", prop, tc.Req.K, sig),
+			rep.Violate(unsoundSignature(prop, tc, sig),
 				fmt.Sprintf("real %s verifier accepted a response whose %d shares differ from the %d committed shares of %+v (codec %s, w=%d, forgery %s; model verdict acc=%v)",
 					tc.Req.K, len(v.data), len(want), tc.Req, enc.codec, tc.W, sig, tc.Acc), replay)
 			continue
@@ -874,6 +944,18 @@ func runCase(rep *vh.Report, prop string, tc *tcase, st *stats, kindCount map[st
 		}
 		// (ii) conformance of the transcription
 		if v.accepted != tc.Acc {
+			// A "forged" recipe whose bytes are exactly an honest answer of the real producers is not
+			// a forgery (equal payloads / symmetric squares make different recipes coincide; the term
+			// model of Square.tla does not know every such coincidence): acceptance is then required.
+			if v.accepted && !tc.Acc {
+				if prod == nil {
+					prod, _ = producerEncodings(sq, tc.Req)
+				}
+				if prod != nil && containsBytes(prod[enc.codec], enc.data) {
+					st.benignIdentical.Add(1)
+					continue
+				}
+			}
 			rep.Inconclusivef("verdict drift (%s, codec %s): model ImplAccept=%v, real accepted=%v (%s) for %+v w=%d ns=%v pid=%v forgery %s resp=%s",
 				tc.Req.K, enc.codec, tc.Acc, v.accepted, v.err, tc.Req, tc.W, tc.Ns, tc.Pid, sig, compact(tc.Resp))
 		}
